@@ -1,7 +1,11 @@
 package mime
 
 import (
+	"encoding/json"
 	"fmt"
+	"os"
+	"path/filepath"
+	"sort"
 	"strings"
 
 	"verifharness/internal/drv"
@@ -20,7 +24,7 @@ type Result struct {
 	Tag         string
 	Spec        map[string]bool // C05, C05v, OWS
 	WF, OwsEq   bool
-	Class       map[string]bool // F07, F07b of the primary spelling
+	Class       map[string]bool // F07b (open) and F07 (repaired; coverage only) of the primary spelling
 	ClassV      map[string]bool
 	Best        string
 }
@@ -146,12 +150,11 @@ type Verdict struct {
 // only excuses a failing case while its finding is listed; otherwise the case is a VIOLATION.
 var Open = map[string]bool{}
 
-// known class of one spelling, decided on the Go side
+// known class of one spelling, decided on the Go side.  F07b is the only class of C05 that can
+// excuse a failing case; the class of the repaired F07 (ClassFormerF07) excuses nothing, whatever
+// known_findings.json says.
 func goClass(accept string, c *Case) string {
-	switch {
-	case Open["F07"] && ClassF07(accept, c.Default):
-		return "F07"
-	case Open["F07b"] && ClassF07b(accept, c.Produces):
+	if Open["F07b"] && ClassF07b(accept, c.Produces) {
 		return "F07b"
 	}
 	return ""
@@ -208,9 +211,9 @@ func (r *Result) CrossCheck() error {
 		accept string
 		cls    map[string]bool
 	}{{c.Accept(), r.Class}, {c.Variant(), r.ClassV}} {
-		if ClassF07(s.accept, c.Default) != s.cls["F07"] || ClassF07b(s.accept, c.Produces) != s.cls["F07b"] {
-			return fmt.Errorf("class predicates differ between Go (F07=%v F07b=%v) and Lean (%v) on %q produces=%v default=%q",
-				ClassF07(s.accept, c.Default), ClassF07b(s.accept, c.Produces), s.cls, s.accept, c.Produces, c.Default)
+		if ClassFormerF07(s.accept, c.Default) != s.cls["F07"] || ClassF07b(s.accept, c.Produces) != s.cls["F07b"] {
+			return fmt.Errorf("class predicates differ between Go (former F07=%v F07b=%v) and Lean (%v) on %q produces=%v default=%q",
+				ClassFormerF07(s.accept, c.Default), ClassF07b(s.accept, c.Produces), s.cls, s.accept, c.Produces, c.Default)
 		}
 		var qs []string
 		wellFormedRanges(s.accept, &qs)
@@ -381,14 +384,171 @@ func reportCase(run *report.Run, r *Result, v Verdict, neighbourhood bool) {
 	run.AddViolation(w)
 }
 
-// witnesses of the open findings (the `decide`d Lean theorems C05_F07_witness, C05_F07b_witness),
+// witnesses of the open finding (the `decide`d Lean theorems C05_F07b_witness, _default, _zip),
 // replayed on the real code on every run
 func Witnesses() map[string]*Case {
+	starQx := []Range{{Media: "*/*", Params: []Param{{Name: "q", Val: "x"}}}}
 	return map[string]*Case{
-		"F07": {Router: "curly", Produces: []string{"application/xml"}, Absent: true, Default: "application/json"},
 		"F07b": {Router: "curly", Produces: []string{"application/json"}, Ranges: []Range{
 			{Media: "application/json", Params: []Param{{Name: "q", Val: "x"}}}, {Media: "application/xml"}}, WS1: 0, WS2: 0},
+		"F07b-default": {Router: "curly", Produces: []string{"application/xml"}, Ranges: starQx, Default: "application/json"},
+		"F07b-zip":     {Router: "curly", Produces: []string{"application/json"}, Ranges: starQx, Default: "application/zip"},
 	}
+}
+
+// Regression is a former witness of a repaired finding: the real code must answer it as the
+// property demands (Now); Before is what the unrepaired code answered, on which the predicate must
+// still fail (otherwise the predicate lost the ability to see the defect).
+type Regression struct {
+	ID     string
+	Case   *Case
+	Now    Obs // the one answer the property allows, every dispatch
+	Before Obs // what the code answered before the repair, every dispatch
+}
+
+func rep(o Obs) []Obs {
+	out := make([]Obs, Dispatches)
+	for i := range out {
+		out[i] = o
+	}
+	return out
+}
+
+// Regressions are the two former witnesses of F07 (Lean: C05_F07_fixed), repaired by d89a7d4: no
+// Accept header with a default content type set.
+func Regressions() []Regression {
+	return []Regression{
+		{ID: "F07", Case: &Case{Router: "curly", Produces: []string{"application/xml"}, Absent: true, Default: "application/json"},
+			Now: Obs{Kind: "ct", CT: "application/xml"}, Before: Obs{Kind: "ct", CT: "application/json"}},
+		{ID: "F07-zip", Case: &Case{Router: "curly", Produces: []string{"application/json"}, Absent: true, Default: "application/zip"},
+			Now: Obs{Kind: "ct", CT: "application/json"}, Before: Obs{Kind: "e406"}},
+	}
+}
+
+// ReplayFile is the committed record of the regressions (written by cmd/mimewitness).
+type ReplayFile struct {
+	Property   string `json:"property"`
+	Finding    string `json:"finding"`
+	Status     string `json:"status"`
+	Theorem    string `json:"theorem"`
+	Expect     string `json:"expect"`
+	ExpectSpec []int  `json:"expect_spec"` // per line of violation.case: the value of (spec C05 …) and (spec C05v …)
+	Violation  struct {
+		Kind  string      `json:"kind"`
+		What  string      `json:"what"`
+		Case  []string    `json:"case"`
+		Human interface{} `json:"human"`
+		Model string      `json:"model"`
+		Real  string      `json:"real"`
+	} `json:"violation"`
+}
+
+// RegressionLines: for every regression the line with the answers demanded today and the line
+// with the answers recorded before the repair, and the spec bit each must get.
+func RegressionLines() (lines []string, expect []int) {
+	for i, g := range Regressions() {
+		lines = append(lines, g.Case.Line(2*i, rep(g.Now), rep(g.Now)), g.Case.Line(2*i+1, rep(g.Before), rep(g.Before)))
+		expect = append(expect, 1, 0)
+	}
+	return lines, expect
+}
+
+// specBits evaluates protocol lines on the driver and returns (spec C05 ∧ spec C05v) per line.
+func specBits(lines []string) ([]int, error) {
+	ans, err := drv.Run(lines)
+	if err != nil {
+		return nil, err
+	}
+	out := make([]int, len(ans))
+	for i, a := range ans {
+		r := &Result{Line: lines[i]}
+		if err := r.fill(a); err != nil {
+			return nil, err
+		}
+		if r.Spec["C05"] && r.Spec["C05v"] {
+			out[i] = 1
+		}
+	}
+	return out, nil
+}
+
+// checkRegressions: the former witnesses of the repaired finding must PASS on the real code (a
+// failure is an ordinary violation with a concrete replay), the predicate must still reject what
+// the unrepaired code answered, and the committed replays/F07.json must say the same.
+func checkRegressions(run *report.Run) error {
+	for _, g := range Regressions() {
+		r, err := One(g.Case)
+		if err != nil {
+			return err
+		}
+		if err := r.CrossCheck(); err != nil {
+			return err
+		}
+		run.Evaluations++
+		if !r.Class["F07"] {
+			return fmt.Errorf("regression %s is not in the class of the repaired finding F07", g.ID)
+		}
+		v := r.Judge()
+		if v.Kind == "" {
+			for _, o := range append(append([]Obs{}, r.Real...), r.RealV...) {
+				if o.Kind != g.Now.Kind || o.CT != g.Now.CT {
+					v = Verdict{Kind: "counterexample", What: fmt.Sprintf("regression %s (repaired by d89a7d4) is answered %s, the property demands %s", g.ID, o, g.Now)}
+				}
+			}
+		}
+		if v.Kind != "" {
+			// no shrinking: the case is minimal and is the committed one
+			what := fmt.Sprintf("regression of the repaired finding F07 (d89a7d4, no Accept header and DefaultResponseContentType %q on a route producing %v): %s", g.Case.Default, g.Case.Produces, v.What)
+			kind := v.Kind
+			if kind != "correspondence" {
+				kind = "counterexample"
+			}
+			w := r.violation(kind, what)
+			w.Theorem = "Restful.Props.C05_F07_fixed"
+			run.AddViolation(w)
+			run.Count("regression-" + g.ID + "-FAILS")
+			continue
+		}
+		run.Count("regression-" + g.ID + "-passes")
+	}
+	// the predicate on the recorded answers: today's must satisfy it, the pre-repair ones must not
+	lines, expect := RegressionLines()
+	got, err := specBits(lines)
+	if err != nil {
+		return err
+	}
+	for i := range lines {
+		if got[i] != expect[i] {
+			return fmt.Errorf("Spec.c05Holds = %d, expected %d, on the recorded answers of a regression of F07: %s", got[i], expect[i], lines[i])
+		}
+	}
+	// the committed file carries the same lines
+	b, err := os.ReadFile(filepath.Join(report.Root, "replays", "F07.json"))
+	if err != nil {
+		run.Count("replays/F07.json:absent")
+		return nil
+	}
+	var f ReplayFile
+	if err := json.Unmarshal(b, &f); err != nil {
+		return fmt.Errorf("replays/F07.json: %v", err)
+	}
+	if len(f.Violation.Case) == 0 || len(f.Violation.Case) != len(f.ExpectSpec) {
+		return fmt.Errorf("replays/F07.json is not a regression record (expect_spec missing or of the wrong length): regenerate it with cmd/mimewitness")
+	}
+	bits, err := specBits(f.Violation.Case)
+	if err != nil {
+		return err
+	}
+	for i, l := range f.Violation.Case {
+		if bits[i] != f.ExpectSpec[i] {
+			return fmt.Errorf("replays/F07.json line %d: Spec.c05Holds = %d, the file expects %d: %s", i, bits[i], f.ExpectSpec[i], l)
+		}
+		if i >= len(lines) || l != lines[i] {
+			return fmt.Errorf("replays/F07.json line %d is not the regression the check runs: regenerate it with cmd/mimewitness", i)
+		}
+	}
+	run.Count("replays/F07.json:replayed-as-regression")
+	return nil
 }
 
 // Check is the body of `vcheck check C05`.
@@ -402,14 +562,26 @@ func Check(run *report.Run, n int) error {
 			}
 		}
 	}
-	// 1. witnesses: still failing ⇒ counted as known; no longer failing ⇒ silent
-	for id, w := range Witnesses() {
+	// 1a. regressions of repaired findings: must pass
+	if err := checkRegressions(run); err != nil {
+		return err
+	}
+	// 1b. witnesses of the open finding: still failing ⇒ counted as known; no longer failing ⇒ silent
+	wit := Witnesses()
+	var wids []string
+	for wid := range wit {
+		wids = append(wids, wid)
+	}
+	sort.Strings(wids)
+	for _, wid := range wids {
+		w := wit[wid]
+		id := strings.SplitN(wid, "-", 2)[0]
 		if !Open[id] {
 			continue
 		}
-		// the F07b witness depends on map iteration order: dispatch it until a non-produced type or two different answers show up (at most 22×6 times)
+		// the first F07b witness depends on map iteration order: dispatch it until a non-produced type or two different answers show up (at most 22×6 times)
 		tries := 1
-		if id == "F07b" {
+		if wid == "F07b" {
 			tries = 22
 		}
 		for t := 0; t < tries; t++ {
@@ -424,7 +596,7 @@ func Check(run *report.Run, n int) error {
 			run.Evaluations++
 			if v.Kind == "known" && v.Known == id {
 				run.KnownHits[id]++
-				run.Count("witness-" + id + "-still-fails")
+				run.Count("witness-" + wid + "-still-fails")
 				break
 			}
 			if v.Kind == "counterexample" || v.Kind == "correspondence" {
@@ -436,6 +608,7 @@ func Check(run *report.Run, n int) error {
 	// 2. the random stream
 	base := rng.New(run.Seed*1000003 + 5)
 	reported := map[string]int{}
+	formerF07, formerF07Sharp := 0, 0
 	const batch = 5000
 	for start := 0; start < n; start += batch {
 		end := start + batch
@@ -470,6 +643,15 @@ func Check(run *report.Run, n int) error {
 			if strings.ContainsAny(r.Case.Accept()+r.Case.Variant(), " \t") {
 				run.Count("accept:with-optional-whitespace")
 			}
+			if r.Class["F07"] {
+				// class of the repaired F07: measured, never excused
+				formerF07++
+				run.Count("former-F07-class(no Accept value, default set)")
+				if r.Case.Default != r.Case.Produces[0] {
+					formerF07Sharp++
+					run.Count("former-F07-class:default-is-not-the-first-produced-type(the unrepaired code answers these wrongly)")
+				}
+			}
 			if r.Real[0].Kind != "r406" || r.RealV[0].Kind != "r406" {
 				run.Distinct[r.Case.Signature()] = true
 			}
@@ -495,6 +677,9 @@ func Check(run *report.Run, n int) error {
 				run.Count("failing:" + v.Kind)
 			}
 		}
+	}
+	if n >= 2000 && formerF07Sharp < n/400 {
+		return fmt.Errorf("the stream hardly visits the class of the repaired finding F07 (%d of %d cases, %d of them with a default that is not the first produced type): a regression there would go unnoticed", formerF07, n, formerF07Sharp)
 	}
 	return nil
 }
